@@ -104,6 +104,20 @@ func reads(f *fox.Router, host string) []read {
 			}
 		}},
 		{"Router.Reverse", func() { f.Reverse("GET", host, "/r/1/x") }},
+		{"Router.Reverse trailing slash", func() { f.Reverse("GET", host, "/ign/1/") }},
+		{"Router.Reverse no match", func() { f.Reverse("GET", host, "/nothing/at/all") }},
+		{"Router.Reverse unknown method", func() { f.Reverse("BREW", host, "/static") }},
+		{"Router.Lookup trailing slash / none / catch-all", func() {
+			for _, p := range []string{"/red/1", "/ign/1/", "/nothing/at/all", "/files/a/b"} {
+				req := httptest.NewRequest("GET", "http://"+host+p, nil)
+				if _, cc, _ := f.Lookup(rt.Writer(httptest.NewRecorder(), req), req); cc != nil {
+					cw := cc.CloneWith(cc.Writer(), cc.Request())
+					cw.Close()
+					cc.Close()
+				}
+			}
+		}},
+		{"Router.Has missing / invalid", func() { f.Has("GET", "/missing/{x}"); f.Has("GET", "not a pattern"); f.Route("BREW", "/static") }},
 		{"Router.Has", func() { f.Has("GET", "/r/{id}/x") }},
 		{"Router.Route", func() { f.Route("POST", "/static") }},
 		{"Router.Len", func() { f.Len() }},
